@@ -142,7 +142,11 @@ def _s_case(l, pot):
         'l': st.just(l), 'pot': pot, 'lon': LON, 'colat': COLAT, 'time': TIME,
         'layers': st.lists(LAYER, min_size=1, max_size=4),
         'mode': st.sampled_from(['visco', 'visco', 'visco', 'visco', 'elastic', 'elastic_cy']),
-        'bulk_dtype': st.sampled_from(['float', 'complex']), 'frequency': logu(1e-8, 1e-2),
+        'bulk_dtype': st.sampled_from(['float', 'complex']),
+        # the forcing frequency does not enter any clause of the property (the unchanged code ignores it): every value a caller
+        # can meet is generated, incl. the static mode (0.0), a signed retrograde mode and tiny / large magnitudes
+        'frequency': st.one_of(logu(1e-8, 1e-2), logu(1e-8, 1e-2), logu(1e-8, 1e-2), st.just(0.0),
+                               logu(1e-8, 1e-2).map(lambda x: -x), logu(1e-30, 1e-15), logu(1e-2, 1e4)),
         'route': st.sampled_from(['float', 'float', 'int', 'zerod'])})
 
 
@@ -177,7 +181,7 @@ def fixed_cases(tier):
 
 def required_labels(tier):
     return ['l=2', 'l=3', 'l=4', 'pot:ylm', 'pot:repo_simple', 'pot:repo_nsr', 'mode:visco', 'mode:elastic', 'mode:elastic_cy',
-            'bulk:float', 'bulk:complex', 'route:float', 'route:int', 'route:zerod', 'route_applied:int', 'grid:single_point', 'grid:multi', 'radii:1', 'radii:>1', 'near_pole']
+            'bulk:float', 'bulk:complex', 'route:float', 'route:int', 'route:zerod', 'route_applied:int', 'freq:zero', 'freq:negative', 'freq:tiny', 'freq:positive', 'grid:single_point', 'grid:multi', 'radii:1', 'radii:>1', 'near_pole']
 
 
 def _rng(x, lo, hi):
@@ -205,7 +209,7 @@ def in_domain(case):
               and 1 <= len(case['colat']) <= 6 and all(_rng(v, 0.05, math.pi - 0.05) for v in case['colat'])
               and 1 <= len(case['time']) <= 6 and all(_rng(v, 0.0, 1.0) for v in case['time'])
               and 1 <= len(case['layers']) <= 4 and case['mode'] in ('visco', 'elastic', 'elastic_cy')
-              and case.get('route', 'float') in ROUTES and case['bulk_dtype'] in ('float', 'complex') and _rng(case['frequency'], 1e-8, 1e-2))
+              and case.get('route', 'float') in ROUTES and case['bulk_dtype'] in ('float', 'complex') and _rng(case['frequency'], -1e4, 1e4))
         for la in case['layers']:
             ok = ok and (_rng(la['r'], 1e3, 1e7) and _rng(la['mu_abs'], 1e7, 1e12) and _rng(la['mu_loss'], 0.002, 1.5)
                          and _rng(la['K_abs'], 1e8, 1e13) and _rng(la['K_loss'], 0.0, 0.3) and len(la['y']) == 4
@@ -361,6 +365,8 @@ def evaluate(case):
     route = case.get('route', 'float')
     times = np.round(tfrac * 1.0e5) if route != 'float' else tfrac * 1.0e5
     c.label('route:' + route)
+    fq = float(case['frequency'])
+    c.label('freq:zero' if fq == 0.0 else 'freq:negative' if fq < 0 else 'freq:tiny' if fq < 1e-15 else 'freq:positive')
     args = [U, Ut, Up, Utt, Upp, Utp, y, lon, colat, times, radius, shear, bulk, float(case['frequency']), l]
     with repo_call('calculate_strain_stress'):
         strains, stresses = _checked(c, 'calculate_strain_stress', strain_fn, args)
